@@ -91,6 +91,8 @@ impl<F: FileSystem> Loader<F> {
         Deco: syntax::decoration::Decoration,
     {
         let path: Cow<'_, Path> = self.filesystem.canonicalize_path(path);
+        #[cfg(feature = "verif")]
+        crate::verif::emit("load.enter", || format!("{}", path.display()));
         let content = self
             .filesystem
             .file_content_utf8(&path)
@@ -123,6 +125,8 @@ impl<F: FileSystem> Loader<F> {
                         .into());
                     }
                     paths.sort_unstable();
+                    #[cfg(feature = "verif")]
+                    crate::verif::emit("load.include", || format!("{}|{:?}", target, paths));
                     for path in &paths {
                         self.load_impl(parse_options, path, callback)?;
                     }
